@@ -521,6 +521,20 @@ def check(ctx: Ctx, col: Collector, tier: str) -> None:
         else:
             col.bad("C06.SERIALISE", k, repo.loc(API_MOD, sfi.node), f"{keyname}: {sorted(map(repr, vals))}",
                     f"Parameter.to_dict writes {keyname!r} from {sorted(map(repr, vals))}, not from {want_path}")
+    # the docstring may give a parameter its type (no hint, or the DOCSTRING preference); whether it is optional and what its default is stay what
+    # the signature says
+    efi2 = repo.function(VISITOR, "MyPyAstVisitor.enter_funcdef")
+    col.touched(efi2)
+    overrides = [n for n in ast.walk(efi2.node) if isinstance(n, ast.Call) and ast.unparse(n.func) in ("dataclasses.replace", "replace") and n.args and "parameter" in ast.unparse(n.args[0])]
+    if not overrides:
+        raise AnalysisError("enter_funcdef: the docstring override of a parameter (dataclasses.replace(parameter, ...)) was not found")
+    for n in overrides:
+        taken = sorted(k.arg for k in n.keywords if k.arg in ("is_optional", "default_value", "assigned_by", "name") and "docstring" in ast.unparse(k.value))
+        key = f"{VISITOR}::MyPyAstVisitor.enter_funcdef::docstring-override-keeps-signature"
+        (col.ok if not taken else col.bad)("C06.ONE-PER-PARAM", key, repo.loc(VISITOR, n), "the docstring override replaces the type only" if not taken else f"the override also sets {taken} from the docstring entry",
+                                           *([] if not taken else [f"when a parameter takes its type from the docstring (no hint, or `-tsp docstring`) {taken} are replaced by the docstring entry's text as well: "
+                                                                   "`def fit(solver: str = \"adam\")` documented `solver : str, default='adam'` is emitted `solver: String = 'adam'` (source text, no Safe-DS literal), "
+                                                                   "`def fit(hidden=(100,))` documented `hidden : tuple, default=(100,)` is emitted `hidden: Tuple<> = (100,)`, and an un-annotated required parameter documented `default=5` becomes optional"]))
     from .shared import share
     share(ctx, col, "C13", {"C13.CACHE"}, "a parameter without an annotation takes its type, optionality and default from its docstring entry: the entry has to come from this function's own docstring, "
           "never from the docstring cached for the function analysed before")
